@@ -121,3 +121,15 @@ Print Assumptions C01_mean_of_ticks_needs_the_sum_in_range_refuted.
 Theorem C01_mean_formula_is_the_source's : Gen.TablesGen.gen_moment_formulas = moment_formulas.
 Proof. exact tie_moment_formulas. Qed.
 Print Assumptions C01_mean_formula_is_the_source's.
+
+(* Tie B (pins): the functions this property's models transcribe read, statement by statement, as they did when the models
+   were written against them; Gen/SourcesGen.v is regenerated from /repo on every run (translator/pins.py). *)
+From GL Require Import Gen.SourcesGen Model.Sources Proofs.PinC01.
+Theorem C01_modelled_functions_are_the_source's :
+  gen_src_group_by_reduce = src_group_by_reduce /\
+  gen_src_apply_group_method_single_chunk = src_apply_group_method_single_chunk /\
+  gen_src_group_func_wrap = src_group_func_wrap /\
+  gen_src_build_target_for_groupby = src_build_target_for_groupby /\
+  gen_src_apply_gb_reduction = src_apply_gb_reduction.
+Proof. exact (conj pin_group_by_reduce (conj pin_apply_group_method_single_chunk (conj pin_group_func_wrap (conj pin_build_target_for_groupby pin_apply_gb_reduction)))). Qed.
+Print Assumptions C01_modelled_functions_are_the_source's.
